@@ -14,17 +14,36 @@ import GemVerif.Gen.Constraints
 import GemVerif.Lemmas.Constraints
 
 namespace GemVerif.Props.C16
-open GemVerif.Model.Constraints GemVerif.Spec.Constraints
+open GemVerif.Model.Constraints GemVerif.Spec.Constraints GemVerif.Lemmas.Constraints
 
 /-- the validators' environment: in-repo sets and class hierarchy are regenerated, scikit-learn's sets are listed -/
 def env : Env := { sets := Gen.Constraints.namedSets ++ sklearnSets, ancestors := Gen.Constraints.ancestors }
 
-/-- every translated row: (owner, parameter, constraint list or `none`) -/
-def rows : List (String × String × Option (List Constraint)) :=
-  (Gen.Constraints.estimators ++ Gen.Constraints.functions).flatMap fun (o, ps) => ps.map fun (p, r) => (o, p, r)
+/-- every translated row of a table: (owner, parameter, constraint list or `none`) -/
+def rowsOf (t : List (String × List (String × Option (List Constraint)))) : List (String × String × Option (List Constraint)) :=
+  t.flatMap fun (o, ps) => ps.map fun (p, r) => (o, p, r)
+
+/-- rows of the 18 estimators -/
+def estimatorRows := rowsOf Gen.Constraints.estimators
+/-- rows of the GEMINI constructors and decorated functions -/
+def functionRows := rowsOf Gen.Constraints.functions
+def rows := estimatorRows ++ functionRows
 
 /-- the representative values (hand-written ones, plus the neighbours of every extracted bound and every extracted option) -/
 def values : List Value := repValues env (Gen.Constraints.estimators ++ Gen.Constraints.functions)
+
+/-- (a) for one row and one value: inside the documented domain ⇒ the extracted table is satisfied (or a listed deviation) -/
+def NoFalseRejection (r : String × String × Option (List Constraint)) (v : Value) : Prop :=
+  docVerdict r.1 r.2.1 v = some .inDom → accepts env r.2.2 v = true ∨ (r.1, r.2.1, v) ∈ knownDeviations
+
+/-- (b) for one row and one value: the extracted table is satisfied ⇒ not outside the documented domain, or a listed
+    late rejection, or a parameter that has no usable table entry at all -/
+def NoFalseAcceptance (r : String × String × Option (List Constraint)) (v : Value) : Prop :=
+  accepts env r.2.2 v = true →
+    docVerdict r.1 r.2.1 v ≠ some .outDom ∨ (r.1, r.2.1, v) ∈ lateRejected ∨ (r.1, r.2.1) ∈ unvalidated
+
+instance (r v) : Decidable (NoFalseRejection r v) := by unfold NoFalseRejection; infer_instance
+instance (r v) : Decidable (NoFalseAcceptance r v) := by unfold NoFalseAcceptance; infer_instance
 
 /-- The documentation and the code speak about the same parameters: every `__init__` / function parameter that the
     translator found is documented, and every documented parameter exists. -/
@@ -32,12 +51,14 @@ theorem documented_parameters_exist :
     (∀ r ∈ rows, (r.1, r.2.1) ∈ documentedKeys) ∧ (∀ k ∈ documentedKeys, k ∈ rows.map fun r => (r.1, r.2.1)) := by
   decide +kernel
 
-/-- (a) NO FALSE REJECTION.  For every owner, parameter and representative value: a value inside the documented
-    domain satisfies the extracted table — except the listed `knownDeviations` (`random_state=RandomState(…)` on the
-    DiscriminativeModel subclasses), each of which is shown below to be a genuine deviation of the current code. -/
-theorem no_false_rejection :
-    ∀ r ∈ rows, ∀ v ∈ values,
-      docVerdict r.1 r.2.1 v = some .inDom → accepts env r.2.2 v = true ∨ (r.1, r.2.1, v) ∈ knownDeviations := by
+/-- (a) NO FALSE REJECTION, estimators.  For every parameter of every estimator and every representative value: a
+    value inside the documented domain satisfies the extracted `_parameter_constraints` entry (`knownDeviations`,
+    the explicit exception list, is currently EMPTY). -/
+theorem no_false_rejection_estimators : ∀ r ∈ estimatorRows, ∀ v ∈ values, NoFalseRejection r v := by
+  decide +kernel
+
+/-- (a) NO FALSE REJECTION, GEMINI constructors and decorated functions. -/
+theorem no_false_rejection_functions : ∀ r ∈ functionRows, ∀ v ∈ values, NoFalseRejection r v := by
   decide +kernel
 
 /-- the `knownDeviations` list is tight: every entry is a documented value that the extracted table rejects -/
@@ -46,17 +67,19 @@ theorem knownDeviations_are_deviations :
       docVerdict d.1 d.2.1 d.2.2 = some .inDom ∧ accepts env r.2.2 d.2.2 = false := by
   decide +kernel
 
-/-- (b) NO FALSE ACCEPTANCE.  For every owner, parameter and representative value: a value that satisfies the
-    extracted table is not outside the documented domain — unless it is one of the explicitly listed `lateRejected`
-    values (confirmed on every run to be rejected inside `fit` by a ValueError/TypeError), or the parameter is one of
-    the `unvalidated` ones (no usable table entry at all: every out-of-domain value is left to the body). -/
-theorem no_false_acceptance :
-    ∀ r ∈ rows, ∀ v ∈ values,
-      accepts env r.2.2 v = true →
-        docVerdict r.1 r.2.1 v ≠ some .outDom ∨ (r.1, r.2.1, v) ∈ lateRejected ∨ (r.1, r.2.1) ∈ unvalidated := by
+/-- (b) NO FALSE ACCEPTANCE, estimators.  For every parameter of every estimator and every representative value: a
+    value that satisfies the extracted table is not outside the documented domain — unless it is one of the explicitly
+    listed `lateRejected` values (confirmed on every run to be rejected inside `fit` by a ValueError/TypeError), or the
+    parameter is one of the `unvalidated` ones (no table entry: every out-of-domain value is left to the body). -/
+theorem no_false_acceptance_estimators : ∀ r ∈ estimatorRows, ∀ v ∈ values, NoFalseAcceptance r v := by
   decide +kernel
 
-/-- the `lateRejected` list is tight: every entry passes its table and is outside the documented domain -/
+/-- (b) NO FALSE ACCEPTANCE, GEMINI constructors and decorated functions. -/
+theorem no_false_acceptance_functions : ∀ r ∈ functionRows, ∀ v ∈ values, NoFalseAcceptance r v := by
+  decide +kernel
+
+/-- the `lateRejected` list is tight: every entry is a representative value that passes its table and is outside the
+    documented domain -/
 theorem lateRejected_pass_the_table :
     ∀ d ∈ lateRejected, ∃ r ∈ rows, r.1 = d.1 ∧ r.2.1 = d.2.1 ∧ d.2.2 ∈ values ∧
       docVerdict d.1 d.2.1 d.2.2 = some .outDom ∧ accepts env r.2.2 d.2.2 = true := by
@@ -77,5 +100,45 @@ theorem decorator_keys_name_parameters :
 theorem string_sets_resolved :
     ∀ nm ∈ Gen.Constraints.externalSets, nm ∈ sklearnSets.map (·.1) := by
   decide +kernel
+
+/-! ### (c) `check_groups` -/
+
+/-- The translated `check_groups` (regenerated from gemclus/sparse/_base_sparse.py on every run) is, term for term,
+    the function the statements below are proved about. -/
+theorem checkGroups_translation : Gen.Constraints.checkGroups = Model.Constraints.checkGroups := rfl
+
+/-- (c) For ALL group lists and ALL numbers of features: when every index is a feature index (`0 ≤ i < d`) and no
+    index occurs twice (`Legal`), `check_groups` returns the user's groups, in their order, followed by one singleton
+    per unmentioned feature, and the result is a partition of `range d` (its concatenation is a permutation of
+    `0, …, d-1`); in every other case it raises.  `None` is passed through. -/
+theorem checkGroups_characterisation (groups : Groups) (d : Nat) :
+    (Legal groups d →
+        Gen.Constraints.checkGroups (some groups) d = .ok (some (completion groups d)) ∧
+        (completion groups d).flatten.Perm (pyRange d)) ∧
+    (¬ Legal groups d → ∃ e, Gen.Constraints.checkGroups (some groups) d = .error e) ∧
+    Gen.Constraints.checkGroups none d = .ok none := by
+  rw [checkGroups_translation]
+  exact ⟨fun h => ⟨checkGroups_legal groups d h, completion_partition groups d h⟩,
+         checkGroups_illegal groups d, rfl⟩
+
+/-- the hypotheses of (c) are satisfiable in both directions, including the empty partial list (accepted since /repo
+    commit a36587a) and a group list that already covers every feature -/
+example : Legal [[2, 0]] 4 ∧ Legal [] 3 ∧ Legal [[]] 2 ∧ Legal [[1], [0, 2]] 3 ∧ ¬ Legal [[0, 0]] 2 ∧ ¬ Legal [[0], [3]] 3 ∧
+    ¬ Legal [[-1]] 3 ∧ completion [[2, 0]] 4 = [[2, 0], [1], [3]] := by decide
+
+/-! ### (d) the two scalar tests -/
+
+/-- (d) Kauri's consistency test, as translated from `Kauri.fit`, raises exactly when the documented condition
+    "`min_samples_leaf`*2 <= `min_samples_split`" fails. -/
+theorem kauri_inequality (min_samples_leaf min_samples_split : Int) :
+    Gen.Constraints.kauriRejects min_samples_leaf min_samples_split = false ↔ 2 * min_samples_leaf ≤ min_samples_split := by
+  simp only [Gen.Constraints.kauriRejects, decide_eq_false_iff_not]
+  omega
+
+/-- (d) Douglas' mask test, as translated from `Douglas._init_params`, raises exactly when the mask does not have one
+    entry per feature ("array of boolean [shape d]"). -/
+theorem douglas_mask_length (len_feature_mask n_features : Int) :
+    Gen.Constraints.douglasMaskRejects len_feature_mask n_features = false ↔ len_feature_mask = n_features := by
+  simp [Gen.Constraints.douglasMaskRejects]
 
 end GemVerif.Props.C16
